@@ -1166,6 +1166,10 @@ class Interp:
         if op == "Eq":
             return self.eq(a, b)
         if op == "NotEq":
+            if isinstance(a, NativeObj):
+                return a._compare(self, "NotEq", b, False)
+            if isinstance(b, NativeObj):
+                return b._compare(self, "NotEq", a, True)
             if isinstance(a, Obj):
                 f, _ = a.cls.lookup("__ne__")
                 if f is not None:
